@@ -195,6 +195,14 @@ func genHsAccept(r *Rng, tier string, stat func(string)) []string {
 			stat("origin-grid")
 		}
 	}
+	for _, sub := range []string{"-", encList([]string{"chat"})} {
+		for mode := 0; mode < 3; mode++ {
+			h := append(append([][2]string(nil), valid...), [2]string{"Sec-Websocket-Protocol", "chat"}, [2]string{"Sec-Websocket-Extensions", "permessage-deflate"})
+			out = append(out, fmt.Sprintf("method=%s proto=1.1 host=%s hdrs=%s subs=%s skip=0 pats=- mode=%d nohijack=1", hx("GET"), hx("example.com"), encHdrs(h), sub, mode))
+			out = append(out, fmt.Sprintf("method=%s proto=1.1 host=%s hdrs=%s subs=%s skip=0 pats=- mode=%d nohijack=1", hx("POST"), hx("example.com"), encHdrs(h), sub, mode))
+			stat("non-hijackable-writer")
+		}
+	}
 	for _, o := range originPool {
 		for _, ps := range schemePatternPool {
 			h := append(append([][2]string(nil), valid...), [2]string{"Origin", o})
@@ -222,7 +230,13 @@ func runHsAccept(kv map[string]string) string {
 		Host: string(Payload(kv["host"])), URL: &url.URL{Path: "/"}, Header: decHdrs(kv["hdrs"])}
 	skip := kv["skip"] == "1"
 	mode, _ := strconv.Atoi(kv["mode"])
-	c, err := websocket.Accept(w, r, &websocket.AcceptOptions{Subprotocols: decList(kv["subs"]), InsecureSkipVerify: skip,
+	var rw http.ResponseWriter = w
+	if kv["nohijack"] == "1" {
+		// a ResponseWriter that cannot be hijacked (a handler behind http.TimeoutHandler, say): nothing may be upgraded, and the
+		// client must be told so with an error status — never 101
+		rw = struct{ http.ResponseWriter }{w}
+	}
+	c, err := websocket.Accept(rw, r, &websocket.AcceptOptions{Subprotocols: decList(kv["subs"]), InsecureSkipVerify: skip,
 		OriginPatterns: decList(kv["pats"]), CompressionMode: websocket.CompressionMode(mode)})
 	status := w.code
 	hij := 0
@@ -361,6 +375,7 @@ func runHsDial(kv map[string]string) string {
 	ctx, cancel := context.WithTimeout(context.Background(), 10*time.Second)
 	defer cancel()
 	callerHdr := decHdrs(kv["chdrs"])
+	earlierKey := ""
 	if kv["predial"] == "1" {
 		// the same header map object was used for an earlier Dial with subprotocols and compression: nothing of that Dial may stick
 		if callerHdr == nil {
@@ -373,6 +388,9 @@ func runHsDial(kv map[string]string) string {
 			CompressionMode: websocket.CompressionContextTakeover, HTTPHeader: callerHdr})
 		if c0 != nil {
 			c0.CloseNow()
+		}
+		if rt0.req != nil {
+			earlierKey = rt0.req.Header.Get("Sec-WebSocket-Key")
 		}
 	}
 	before := callerHdr.Clone()
@@ -407,6 +425,9 @@ func runHsDial(kv map[string]string) string {
 				if k == "Sec-Websocket-Key" {
 					if d, e := base64.StdEncoding.DecodeString(v); e == nil && len(d) == 16 && len(rt.req.Header[k]) == 1 {
 						keyOK = 1
+					}
+					if v == earlierKey && earlierKey != "" {
+						keyOK = 3 // the nonce of the earlier attempt was used again
 					}
 					v = "@KEY@"
 				}
